@@ -766,6 +766,9 @@ func GenC11(seed uint64, tier string) *Config {
 	} else {
 		c.Hash = "real"
 	}
+	if c.BigData == 0 && c.Before == nil && c.Crowd <= 1 && r.IntN(8) == 0 {
+		c.ScoreBystanders = 1 + r.IntN(2) // Score evaluated by other goroutines during the call (DESIGN 4.1 note 22)
+	}
 	return c
 }
 
@@ -952,6 +955,9 @@ func GenC12(seed uint64, tier string) *Config {
 		}
 	} else {
 		c.Hash = "real"
+	}
+	if c.BigData == 0 && c.Before == nil && c.Crowd <= 1 && r.IntN(8) == 0 {
+		c.ScoreBystanders = 1 + r.IntN(2) // Score evaluated by other goroutines during the call (DESIGN 4.1 note 22)
 	}
 	return c
 }
